@@ -10,7 +10,8 @@ EXPLANATION = (
     "(add_payment_attempt on absent/Free, mark_failed on Pending) must find each of its writes' mode preconditions satisfied "
     "(must-replace needs the key, must-create needs it fresh, a generation-conditional write needs the state key); an image on which a "
     "recovery write cannot succeed is a permanent wedge and is reported with the write. Also: must-create attempt keys are clock-derived "
-    "(fresh). The lifecycle-side facts this relies on (which call runs on which stored state) are C02-S2/S4 and C05-A2, cited."
+    "(fresh), and the generation carried by the generation-conditional Free write is the one observed with the Pending record (C09-G). "
+    " The lifecycle-side facts this relies on (which call runs on which stored state) are C02-S2/S4 and C05-A2, cited."
 )
 ASSUMPTIONS = ["CLN datastore mode semantics (must-create, must-replace, create-or-replace, generation compare)", "attempt ids derived from the nanosecond clock do not repeat"]
 
@@ -20,6 +21,9 @@ def run(F, X, rep):
     if not R.need_lc(C, rep, "C09-M"):
         return
     S.m_modes_vs_images(C, rep, "C09-M")
+    # a generation-conditional recovery write can only succeed if it carries the generation that was observed
+    # together with the Pending record (the image model assumes it does)
+    S.s7_generation_guard(C, rep, "C09-G")
     # lifecycle side of the recovery protocol
     R.s4_mark_failed_guards(C, rep, "C09-L")
     R.a2_pending_pay_only_after_none(C, rep, "C09-L")
